@@ -3378,6 +3378,8 @@ class PyCdlib:
         if file_mode is not None:
             if not self.rock_ridge:
                 raise pycdlibexception.PyCdlibInvalidInput('Can only specify a file mode for Rock Ridge ISOs')
+            if not 0 <= file_mode <= 0xffffffff:
+                raise pycdlibexception.PyCdlibInvalidInput('The file mode must fit in 32 bits')
             fmode = file_mode
         else:
             if self.rock_ridge:
@@ -4917,6 +4919,9 @@ class PyCdlib:
 
         if file_mode is not None and not self.rock_ridge:
             raise pycdlibexception.PyCdlibInvalidInput('A file mode can only be specified for Rock Ridge ISOs')
+
+        if file_mode is not None and not 0 <= file_mode <= 0xffffffff:
+            raise pycdlibexception.PyCdlibInvalidInput('The file mode must fit in 32 bits')
 
         # For backwards-compatibility reasons, if the mode was not specified we
         # just assume 555.  We should probably eventually make file_mode
